@@ -278,6 +278,7 @@ type pipeRec struct {
 	outQ    []int // blocks processed by the runner, waiting to be forwarded
 	draining bool // runner is between apply_done and the first result
 	subsInFlight int
+	rsSent, rrRead int // results sent (rs minus rd) and read from Results()
 	stopped bool
 
 	gateMu   sync.Mutex
@@ -380,6 +381,11 @@ func (r *pipeRec) onTrace(kind string, item *pipeline.BlockItem, n int) {
 		r.outQ = append(r.outQ, b)
 		r.draining = true
 	case "rs", "rd":
+		if short == "rs" {
+			r.rsSent++
+		} else {
+			r.rsSent-- // the send announced by the preceding rs was abandoned
+		}
 		r.loc[b] = locDone
 		r.draining = false
 		if len(r.outQ) > 0 {
@@ -466,6 +472,9 @@ func (r *pipeRec) stable() bool {
 	defer r.mu.Unlock()
 	if r.subsInFlight > 0 {
 		return false
+	}
+	if !r.stopped && r.rsSent != r.rrRead {
+		return false // a result is still on its way to the reader
 	}
 	gateOpen := false
 	select {
@@ -635,7 +644,10 @@ func runPipe(op string) string {
 		defer readers.Done()
 		for item := range p.Results() {
 			if b := r.blkOf(item); b >= 0 {
-				r.ev(fmt.Sprintf("rr:%d:%d", b, item.SequenceNumber()))
+				r.mu.Lock()
+				r.rrRead++
+				r.events = append(r.events, fmt.Sprintf("rr:%d:%d", b, item.SequenceNumber()))
+				r.mu.Unlock()
 			}
 		}
 	}()
